@@ -30,3 +30,11 @@ Definition run_all (tbl : list (N * Z)) (fuel : nat) (P : list rule) (F : list f
 Definition rkey (k : key) : N * N := match k with KV x => (0, x) | KS c => (1, c) | KO c => (2, c) end.
 Definition run_join (a : atom) (facts : list fact) (rows : list row) : list (list (N * N * N)) :=
   map (fun r => map (fun e => (rkey (fst e), snd e)) r) (hash_join a facts rows).
+
+(* large-fact-set stream: only the (proved) executable Specs are evaluated; rendered as a sorted-insensitive
+   list (the check compares sets) *)
+Definition run_spec (tbl : list (N * Z)) (fuel : nat) (P : list rule) (F : list fact) :=
+  let nv := nv_tbl tbl in
+  (if known_C05_neg P then None else least_model nv fuel P F,
+   if known_C05_neg P then stratified_exec nv fuel P F else None,
+   (known_C05_par P, known_C05_neg P, safe P, known_C05_neg_feed P)).
